@@ -40,6 +40,17 @@ Proof.
 Qed.
 Print Assumptions gen_remove_keeps_the_heap.
 
+(* ... and in the model's view (the elements by priority) that is the model's remove_id on its sorted list *)
+Theorem gen_remove_is_the_models_remove_id : forall b o b' o',
+  Forall (fun z : O => isbuy z = b_side b) (items (b_q b)) -> NoDup (map (@oid Q) (items (b_q b))) ->
+  remove_gen b o = Ok (b', o') ->
+  is_heap (b_q b') = true /\ by_priority (items (b_q b')) = remove_id (oid o) (by_priority (items (b_q b))).
+Proof.
+  intros b o b' o' Hs Hn H. destruct (gen_remove_keeps_the_heap _ _ _ _ H) as [Hh [Hi _]]. split; [exact Hh|].
+  rewrite Hi. apply (by_priority_remove (b_side b)); assumption.
+Qed.
+Print Assumptions gen_remove_is_the_models_remove_id.
+
 (* OrderBook.add: an order of the book's side is stamped with the book's time and pushed - the queue stays a heap, has exactly that
    order more, and the model's view (the elements by priority) is the model's `insert` *)
 Theorem gen_add_pushes : forall b o b' o', add_gen b o = Ok (b', o') ->
